@@ -378,6 +378,17 @@ def unfoldAt (red bin : OpK) (vars : List Name) (pre : List (Ex α)) (v : Ex α)
     else none
   | _ => none
 
+/-- What the unit-removal step must NOT do when EVERY operand is the unit: return the bare unit
+    (`return terms[0]`) instead of re-wrapping it in the Contraction — the pending reduction over
+    `vars` (and its multiplicity) is dropped.  (Only used by `drop_reduce_unsound_witness`.) -/
+def ruleUnitsDropReduce (isU : OpK → α → Bool) : Ex α → Option (Ex α)
+  | .contr red bin vars ts =>
+    if bin ≠ .null ∧ ts.any (isUnitNum (isU bin)) = true then
+      let new := ts.filter (fun t => !isUnitNum (isU bin) t)
+      if new.isEmpty then ts.head? else some (.contr red bin vars new)
+    else none
+  | _ => none
+
 /-- What the canonical-order pass must NOT do: collect the operands in a SET / dict keyed by the operand
     (`rank = {v: …}; sorted(rank, key=rank.get)`) — an operand occurring twice (one interned object) is kept
     once.  `same` is the identity test.  (Only used by the witness theorem `canonOrder_by_set_witness`.) -/
